@@ -101,6 +101,10 @@ extern "C" __attribute__((noinline)) int u_dyn_step(const uint8_t *st, const uin
         auto lb = d.lower_bound(q[1]);
         out[3] = lb != e; out[4] = lb != e ? lb->first : 0; out[5] = lb != e ? lb->second : 0;
 #endif
+#if DMODE == 5
+        auto f5 = d.find(q[0]);
+        out[0] = f5 != e; out[1] = f5 != e ? f5->second : 0;
+#endif
 #if DMODE == 1
         size_t c = 0;
         for (auto it = d.begin(); it != e; ++it) {
